@@ -11,8 +11,8 @@ namespace Gossamer.C23
 
 structure Spec where
   /-- accepted blocks that are on the finalised chain or descend from the finalised block -/
-  known : List Blk
-  fin : Blk
+  known : List Nat
+  fin : Nat
   setId : Nat
   /-- authorities (tag) of set `s` at index `s` -/
   auths : List Nat
@@ -50,19 +50,19 @@ def specImportStd (t : Tree) (pc : Ann) (roots : List Node) : List Node :=
 
 /-- the change a header signals: its forced change if it has one, otherwise its scheduled change
     (`check_new_change`) -/
-def signalled (t : Tree) (b : Blk) : Option Ann :=
+def signalled (t : Tree) (b : Nat) : Option Ann :=
   let ds := t.anns.filter (·.blk = b)
   match ds.find? (·.forced) with
   | some f => some f
   | none => ds.head?
 
 /-- comparable with `b`: on the chain of `b` or descending from it -/
-def cmp (t : Tree) (b x : Blk) : Bool := anc t b x || anc t x b
+def cmp (t : Tree) (b x : Nat) : Bool := anc t b x || anc t x b
 
 /-- `imp b`.  A block is accepted when its parent is accepted and not below the finalised block.
     A block whose forced change would be the second one pending on its fork, or that enacts a forced change
     depending on a pending standard change, is rejected as a whole (nothing changes). -/
-def Spec.importBlock (t : Tree) (p : Spec) (b : Blk) : Spec × String :=
+def Spec.importBlock (t : Tree) (p : Spec) (b : Nat) : Spec × String :=
   if !(p.known.contains (par t b) && anc t p.fin (par t b)) then (p, "e-parent")
   else
     -- add_pending_change
@@ -93,7 +93,7 @@ def Spec.importBlock (t : Tree) (p : Spec) (b : Blk) : Spec × String :=
     untouched.
     Choice: a pending forced change stays pending exactly while its announcing block is the finalised block
     or descends from it. -/
-def Spec.finalise (t : Tree) (p : Spec) (b : Blk) : Spec × String :=
+def Spec.finalise (t : Tree) (p : Spec) (b : Nat) : Spec × String :=
   if !(p.known.contains b && anc t p.fin b) then (p, "e-fin")
   else
     let n := num t b
@@ -112,14 +112,19 @@ def Spec.step (t : Tree) (p : Spec) : Op → Spec × String
   | .imp b => p.importBlock t b
   | .fin b => p.finalise t b
 
-/-- the set in charge of block number `n`: the latest set that began below `n` -/
-def Spec.setIdAt (p : Spec) (n : Nat) : Nat :=
-  let idx := (List.range p.starts.length).filter (fun s => s ≥ 1 ∧ p.starts.getD s 0 < n)
-  idx.foldl max 0
+/-- the largest `i` in `1..k` with `f i < n`, 0 if there is none -/
+def topBelow (f : Nat → Nat) (n : Nat) : Nat → Nat
+  | 0 => 0
+  | k + 1 => if f (k + 1) < n then k + 1 else topBelow f n k
+
+/-- the set in charge of block number `n`: the latest set that began below `n` (the genesis set if none).
+    When the sets' last blocks increase (as Substrate assumes) this is the first set whose last block is
+    not below `n`. -/
+def Spec.setIdAt (p : Spec) (n : Nat) : Nat := topBelow (fun i => p.starts.getD i 0) n p.setId
 
 /-- the lowest effective number, not above the number of `x`, of a pending change (forced, or a root of the
     standard-change tree) announced on the chain of `x`; 0 = none -/
-def Spec.nextChange (t : Tree) (p : Spec) (x : Blk) : Nat :=
+def Spec.nextChange (t : Tree) (p : Spec) (x : Nat) : Nat :=
   let n := num t x
   let cands := (p.forced.filter (fun f => anc t f.blk x && decide (eff t f ≤ n))).map (eff t) ++
     ((p.std.map Node.ann).filter (fun c => anc t c.blk x && decide (eff t c ≤ n))).map (eff t)
